@@ -15,12 +15,14 @@ import os
 import shutil
 import subprocess
 import sys
+import threading
+from concurrent.futures import ThreadPoolExecutor
 
 from . import tlc
 
 FIXDIR = os.path.join(tlc.VERIF, "proposed_fixes")
 # patches that define named deviations of C02: everything proposed for the mapper / expression core
-PATTERNS = ("C02-*.diff", "C09-*.diff")
+PATTERNS = ("C02-*.diff", "C09-*.diff", "C19-*.diff")
 
 
 def repo():
@@ -43,6 +45,7 @@ class Trees(object):
         self.made = {}
         self.skipped = {}
         self.applicable = None
+        self.lock = threading.RLock()
 
     def _copy(self, name):
         d = os.path.join(self.root, name)
@@ -59,32 +62,36 @@ class Trees(object):
     def applicable_fixes(self):
         """the listed patches that apply to the tree under verification (one already applied upstream, or
         one that no longer matches, is not a deviation of this tree)"""
-        if self.applicable is None:
-            self.applicable = []
-            for slug, path in list_fixes():
-                d = self._copy("probe_" + slug)
-                if self._apply(d, path):
-                    self.applicable.append((slug, path))
+        with self.lock:
+            if self.applicable is None:
+                self.applicable = []
+                d = self._copy("probe")
+                for slug, path in list_fixes():
+                    p = subprocess.run(["patch", "-p1", "-s", "-f", "-N", "--dry-run", "--fuzz=3", "-r", "-", "-i", path],
+                                       cwd=d, stdout=subprocess.PIPE, stderr=subprocess.STDOUT)
+                    if p.returncode == 0:
+                        self.applicable.append((slug, path))
                 shutil.rmtree(d, ignore_errors=True)
-        return self.applicable
+            return self.applicable
 
     def tree(self, slugs):
         """path of a copy with the patches `slugs` applied in name order.  Two listed patches may repair the
         same lines (one subsumes the other): a patch that no longer applies on top of the earlier ones is
         skipped and recorded in self.skipped - the earlier patch already changed that code."""
         key = tuple(sorted(slugs))
-        if key in self.made:
-            return self.made[key]
         fixes = dict(self.applicable_fixes())
-        d = self._copy("t%d" % len(self.made))
-        applied = []
-        for s in key:
-            if s in fixes and self._apply(d, fixes[s]):
-                applied.append(s)
-            else:
-                self.skipped.setdefault(key, []).append(s)
-        self.made[key] = d if applied else None
-        return self.made[key]
+        with self.lock:
+            if key in self.made:
+                return self.made[key]
+            d = self._copy("t%d" % len(self.made))
+            applied = []
+            for s in key:
+                if s in fixes and self._apply(d, fixes[s]):
+                    applied.append(s)
+                else:
+                    self.skipped.setdefault(key, []).append(s)
+            self.made[key] = d if applied else None
+            return self.made[key]
 
     def cleanup(self):
         tlc.cleanup(self.root)
@@ -108,34 +115,36 @@ def run_child(tree, job, tag):
         return json.load(f)
 
 
-def explain(items, fails_in, trees, maxsingle=8):
-    """items: {id: item}; fails_in(slugs, ids) -> set of ids that still fail with exactly `slugs` applied.
-    returns {id: sorted list of slugs that explain it (each necessary), or None if unexplained}"""
+def explain(items, fails_in, trees):
+    """items: {id: item}; fails_in(slugs, ids) -> set of ids that still fail with exactly `slugs` applied (thread
+    safe).  returns {id: sorted list of slugs that explain it (each necessary), or None if unexplained}.
+    All patches together and every single patch are tried concurrently on all failing items; only items that need
+    several patches at once go through the (sequential) minimisation."""
     fixes = [s for s, _ in trees.applicable_fixes()]
     ids = set(items)
     out = dict((i, None) for i in ids)
     if not fixes or not ids:
         return out
-    still = fails_in(fixes, ids)
-    candidates = ids - still
-    # single patches first
-    rest = set(candidates)
-    for s in fixes[:maxsingle]:
-        if not rest:
-            break
-        bad = fails_in([s], rest)
-        for i in rest - bad:
-            out[i] = [s]
-        rest = bad
+    with ThreadPoolExecutor(min(8, len(fixes) + 1)) as ex:
+        fall = ex.submit(fails_in, fixes, ids)
+        fone = dict((s, ex.submit(fails_in, [s], ids)) for s in fixes)
+        still = fall.result()
+        bad1 = dict((s, f.result()) for s, f in fone.items())
+    rest = set()
+    for i in ids - still:
+        ok = [s for s in fixes if i not in bad1[s]]
+        if ok:
+            out[i] = [ok[0]]
+        else:
+            rest.add(i)
     # several deviations at once: drop every patch whose removal keeps the case accepted
     if rest:
         need = dict((i, list(fixes)) for i in rest)
         for s in fixes:
-            group = [i for i in rest if s in need[i]]
-            # cases sharing the same current set are re-run together
             bysets = {}
-            for i in group:
-                bysets.setdefault(tuple(need[i]), []).append(i)
+            for i in rest:
+                if s in need[i]:
+                    bysets.setdefault(tuple(need[i]), []).append(i)
             for cur, members in bysets.items():
                 trial = [x for x in cur if x != s]
                 if not trial:
